@@ -81,14 +81,20 @@ pub fn bang_scale(r: &mut Runner, t: &[&str]) {
 struct Out {
     checks: u64,
     fails: u64,
+    /// printed so far per property-tag prefix (each check of the parent looks for its own tag)
+    per_tag: BTreeMap<String, u64>,
 }
 impl Out {
     fn check(&mut self, ok: bool, msg: impl FnOnce() -> String) {
         self.checks += 1;
         if !ok {
             self.fails += 1;
-            if self.fails <= 20 {
-                println!("FAIL {}", msg().replace('\n', " "));
+            let m = msg().replace('\n', " ");
+            let tag: String = m.split(' ').take_while(|w| w.len() == 3 && w.starts_with('C')).collect::<Vec<_>>().join(" ");
+            let n = self.per_tag.entry(tag).or_insert(0);
+            *n += 1;
+            if *n <= 6 {
+                println!("FAIL {}", m);
             }
         }
     }
@@ -434,6 +440,54 @@ fn case_bigfile(o: &mut Out, map: bool, mib: usize, old: bool) {
     }
 }
 
+/// a map of several MiB made of multi-byte nodes (random short keys, values of every width)
+fn case_bigmap(o: &mut Out, nkeys: usize) {
+    println!("TAGS C08 C01 C07");
+    let mut rng = Rng::new(11);
+    let mut keys: Vec<Vec<u8>> = (0..nkeys).map(|_| (0..(4 + rng.below(9))).map(|_| b'a' + rng.below(20) as u8).collect()).collect();
+    keys.sort();
+    keys.dedup();
+    let kv: Kv = keys.into_iter().map(|k| { let v = rng.next() >> rng.below(64); (k, v) }).collect();
+    let mut b = raw::Builder::memory();
+    for (k, v) in &kv {
+        b.insert(k, *v).unwrap();
+    }
+    let cnt = b.bytes_written();
+    let bytes = b.into_inner().unwrap();
+    o.note(format!("bigmap: {} keys, {} bytes", kv.len(), bytes.len()));
+    o.check(bytes.len() > 5 << 20, || format!("C08 only {} bytes (generator problem)", bytes.len()));
+    o.check(cnt as usize + 36 - 16 <= bytes.len() + 20, || "C07 bytes_written".to_string());
+    // C08: the trailer is the masked CRC-32C of everything before it, and verify() agrees
+    let n = bytes.len();
+    let want = mask(crc32c_bitwise(&bytes[..n - 4]));
+    let mut c = [0u8; 4];
+    c.copy_from_slice(&bytes[n - 4..]);
+    o.check(u32::from_le_bytes(c) == want, || format!("C08 the trailing checksum of a {}-byte built map is {:#x}, the bitwise CRC-32C of the preceding bytes gives {:#x}", n, u32::from_le_bytes(c), want));
+    match raw::Fst::new(&bytes[..]) {
+        Err(e) => o.check(false, || format!("C01 C08 a {}-byte built map does not open: {:?}", n, e)),
+        Ok(f) => {
+            o.check(f.verify().is_ok(), || format!("C08 verify() fails on a built {}-byte map: {:?}", n, f.verify()));
+            let mut s = f.stream();
+            let mut i = 0usize;
+            let mut bad = 0;
+            while let Some((k, v)) = s.next() {
+                if i >= kv.len() || k != &kv[i].0[..] || v.value() != kv[i].1 {
+                    bad += 1;
+                }
+                i += 1;
+            }
+            o.check(bad == 0 && i == kv.len(), || format!("C01 stream of a {}-byte map: {} items, {} wrong, inserted {}", n, i, bad, kv.len()));
+        }
+    }
+    // the same through a buffered file-like sink: chunks of 8 KiB
+    let mut b = raw::Builder::new(io::BufWriter::with_capacity(8192, Vec::new())).unwrap();
+    for (k, v) in &kv {
+        b.insert(k, *v).unwrap();
+    }
+    let w = b.into_inner().unwrap().into_inner().unwrap();
+    o.check(w == bytes, || format!("C07 the same map through a BufWriter has {} bytes, in memory {} (equal: false)", w.len(), n));
+}
+
 /// keys of 64 KiB and more (depth counters, key buffers)
 fn case_deepkeys(o: &mut Out, quick: bool) {
     println!("TAGS C01 C03 C04 C02");
@@ -492,6 +546,32 @@ fn case_deepkeys(o: &mut Out, quick: bool) {
     let got = f.search(&sub).into_stream().into_byte_vec();
     let want: Kv = kv.iter().filter(|(k, _)| k.iter().position(|&c| c == b'z').map_or(false, |p| k[p..].contains(&b'b'))).cloned().collect();
     o.check(got == want, || format!("C04 search subsequence over deep keys: {} items want {}", got.len(), want.len()));
+    // exact-match and prefix automata whose pattern is itself 64 KiB long
+    for (i, (k, v)) in kv.iter().enumerate() {
+        if quick && i % 3 != 0 {
+            continue;
+        }
+        if let Ok(ks) = std::str::from_utf8(k) {
+            let exact = fst::automaton::Str::new(ks);
+            let got = f.search(&exact).into_stream().into_byte_vec();
+            o.check(got == vec![(k.clone(), *v)], || format!("C04 search Str(<key #{} of {} bytes>) yields {} items (lengths {:?}), want exactly that key", i, k.len(), got.len(), got.iter().map(|x| x.0.len()).collect::<Vec<_>>()));
+            if k.len() > 70_000 {
+                let pre = &ks[..65_600];
+                let sw = fst::automaton::Str::new(pre).starts_with();
+                let mut s = f.search(&sw).into_stream();
+                let mut gotk: Vec<Vec<u8>> = vec![];
+                while let Some((key, _)) = s.next() {
+                    gotk.push(key.to_vec());
+                }
+                let wantk: Vec<Vec<u8>> = kv.iter().filter(|(x, _)| x.starts_with(pre.as_bytes())).map(|x| x.0.clone()).collect();
+                o.check(gotk == wantk, || format!("C04 search starts_with(<65 600 bytes>) yields {} keys (lengths {:?}), want {}", gotk.len(), gotk.iter().map(|x| x.len()).collect::<Vec<_>>(), wantk.len()));
+            }
+        }
+    }
+    let all = fst::automaton::Subsequence::new("a");
+    let got = f.search(&all).gt(&kv[0].0).into_stream().into_byte_vec();
+    let want: Kv = kv.iter().filter(|(k, _)| k.contains(&b'a') && k > &kv[0].0).cloned().collect();
+    o.check(got == want, || format!("C04 search subsequence(a) gt <key #0>: {} items (lengths {:?}), want {}", got.len(), got.iter().map(|x| x.0.len()).collect::<Vec<_>>(), want.len()));
     let st = fst::automaton::Str::new("a").starts_with();
     let got = f.search(&st).ge(&kv[1].0).into_stream().into_byte_vec();
     let want: Kv = kv.iter().filter(|(k, _)| k.first() == Some(&b'a') && k >= &kv[1].0).cloned().collect();
@@ -738,7 +818,7 @@ fn case_manybuilds(o: &mut Out, n: usize) {
         .collect();
     let mut bad = 0;
     let mut first = None;
-    for i in 0..n {
+    for i in 0..n.min(3_000) {
         let j = i % sets.len();
         let b = raw::Fst::from_iter_set(sets[j].iter()).unwrap().into_inner();
         if b != refs[j] {
@@ -749,6 +829,47 @@ fn case_manybuilds(o: &mut Out, n: usize) {
         }
     }
     o.check(bad == 0, || format!("C15 {} of {} builds in one thread differ from a build in a fresh thread (first: build #{:?})", bad, n, first));
+    if n < 66_000 {
+        return;
+    }
+    // anything kept from one build to a later one on the same thread (a recycled cache with a
+    // wrapping generation counter, …): FIRST_d is built d builds before SECOND_d, which contains an
+    // equal node at a different address; the builds in between are small and unrelated
+    let dists: [usize; 6] = [255, 256, 257, 65_535, 65_536, 65_537];
+    let total = 65_600usize;
+    // (the tails of different pairs end differently: no pair touches another pair's cache rows)
+    let tail = |d: usize| -> String {
+        let c = (b'g' + (dists.iter().position(|&x| x == d).unwrap() as u8)) as char;
+        format!("-long-shared-suffix-{}{}{}", c, c, c)
+    };
+    let first_of = |d: usize| -> Vec<Vec<u8>> { vec![format!("a{}", tail(d)).into_bytes(), format!("b{}", tail(d)).into_bytes()] };
+    let second_of = |d: usize| -> Vec<Vec<u8>> { vec![format!("0-another-key-that-is-written-first-{}", d).into_bytes(), format!("y{}", tail(d)).into_bytes()] };
+    let fresh: Vec<Vec<u8>> = dists
+        .iter()
+        .map(|&d| {
+            let s = second_of(d);
+            std::thread::spawn(move || raw::Fst::from_iter_set(s.iter()).unwrap().into_inner()).join().unwrap()
+        })
+        .collect();
+    // SECOND_j is build number total + 10 j, FIRST_j is build number total + 10 j - d_j (all distinct)
+    for t in 0..total + 10 * dists.len() {
+        if let Some(j) = (0..dists.len()).find(|&j| t == total + 10 * j) {
+            let b = raw::Fst::from_iter_set(second_of(dists[j]).iter()).unwrap().into_inner();
+            o.check(b == fresh[j], || {
+                format!(
+                    "C15 a set built exactly {} builds after a related one on the same thread has {} bytes, in a fresh thread {} bytes (equal: false)",
+                    dists[j],
+                    b.len(),
+                    fresh[j].len()
+                )
+            });
+        } else if let Some(j) = (0..dists.len()).find(|&j| t + dists[j] == total + 10 * j) {
+            let _ = raw::Fst::from_iter_set(first_of(dists[j]).iter()).unwrap();
+        } else {
+            // the same two tiny sets over and over: they touch the same few cache rows each time
+            let _ = raw::Fst::from_iter_set(vec![["q", "qq"][t % 2]]).unwrap();
+        }
+    }
 }
 
 fn case_livebuilders(o: &mut Out, n: usize) {
@@ -991,10 +1112,11 @@ fn case_mergebig(o: &mut Out) {
 }
 
 pub fn child_main(args: &[String]) -> i32 {
-    let mut o = Out { checks: 0, fails: 0 };
+    let mut o = Out { checks: 0, fails: 0, per_tag: BTreeMap::new() };
     let a = |i: usize| -> usize { args.get(i).and_then(|x| x.parse().ok()).unwrap_or(0) };
     match args.first().map(|s| &s[..]) {
         Some("bigfile") => case_bigfile(&mut o, args.get(1).map(|s| s == "map").unwrap_or(true), a(2).max(17), args.get(3).map(|s| s == "old").unwrap_or(false)),
+        Some("bigmap") => case_bigmap(&mut o, a(1).max(1000)),
         Some("deepkeys") => case_deepkeys(&mut o, args.get(1).map(|s| s == "quick").unwrap_or(false)),
         Some("sizes") => case_sizes(&mut o),
         Some("manystreams") => case_manystreams(&mut o, a(1).max(300)),
